@@ -26,13 +26,14 @@ Local Open Scope N_scope.
    AesCtrExamples.paths_differ_on_dead_buf.) *)
 Theorem C03_ctr_stream_aesni_eq : forall (E : list N -> list N),
   (forall b, length (E b) = 16%nat) ->
-  forall nonce total s inp,
-    ctr_inv E nonce total s -> total + N.of_nat (length inp) < two64 ->
+  forall nonce start, start mod 16 = 0 ->
+  forall total s inp,
+    ctr_inv E nonce start total s -> total + N.of_nat (length inp) < two64 ->
     exists s1 s2 out,
       stream_aesni E s inp = Ok (s1, out) /\ stream E s inp = Ok (s2, out) /\
       st_obs_eq s1 s2 /\
-      ctr_inv E nonce (total + N.of_nat (length inp)) s1 /\
-      ctr_inv E nonce (total + N.of_nat (length inp)) s2.
+      ctr_inv E nonce start (total + N.of_nat (length inp)) s1 /\
+      ctr_inv E nonce start (total + N.of_nat (length inp)) s2.
 Proof. exact stream_aesni_eq_stream. Qed.
 Print Assumptions C03_ctr_stream_aesni_eq.
 
